@@ -468,6 +468,11 @@ func TestC02(t *testing.T) {
 		return out.JRoundImpl
 	}
 	for i, raw := range raws {
+		var sc c02ShuffleCase
+		if err := gojson.Unmarshal(raw, &sc); err == nil && sc.Shuffle.Key != "" {
+			em.Emit(names[i], sc, c02ShuffleRun(sc.Shuffle))
+			continue
+		}
 		var in JRound
 		if err := gojson.Unmarshal(raw, &in); err != nil {
 			t.Fatalf("%s: %v", names[i], err)
@@ -483,6 +488,7 @@ func TestC02(t *testing.T) {
 	for _, in := range c01Edge() {
 		run2("edge-c01", in, nil, nil)
 	}
+	c02ShuffleCases(em, NewRng(seed()+2500), tierN(300, 6000))
 	r := NewRng(seed() + 2000)
 	n := tierN(150, 3000)
 	// the first rounds are evaluated once more after every other round of the process: same input, same bytes
